@@ -10,7 +10,8 @@ def lay(rng, **force):
          "trail_nl": rng.chance(4, 5), "blank": rng.chance(1, 3), "comment": rng.chance(1, 3),
          "nonascii": rng.chance(1, 8), "compact": rng.chance(1, 8), "quote": rng.choice(['"', "'", ""]),
          "escape": rng.chance(1, 10), "trail_ws": rng.chance(1, 8), "flow": rng.chance(1, 10), "tabsep": rng.chance(1, 6),
-         "lead_ws": rng.choice(["", "", "", "  ", "\t"])}
+         "lead_ws": rng.choice(["", "", "", "  ", "\t"]),
+         "cgap": rng.choice([" # ", " # ", "  # ", "\t# ", " #", "   #  "])}      # blanks around the '#' of a version comment
     L.update(force)
     return L
 
@@ -121,7 +122,7 @@ def workflow(steps, L):
         val = f"{q}{ref}{q}"
         line = f"      - {{ uses: {val} }}" if (L["flow"] and comment is None) else f"      - uses: {val}"
         if comment is not None:
-            line += f" # {comment}"
+            line += f"{L['cgap']}{comment}"
         out.append(line)
         if L["blank"]: out.append("")
         if decl: declared.append(decl)
